@@ -135,6 +135,25 @@ CLAIMED["C33"] = {
   "design_ref": "DESIGN.md section 4 C33",
 }
 
+CLAIMED["C19"] = {
+  "text": "Narrow structural claim: the all-pairs broadphase iterates the pre-filtered pair tables; the sweep-and-prune broadphase tests the pair-id exclusion code before every store into the pair list; explicit pairs read only pair_* parameters (indexed by the pair id) and generated pairs only geom_* parameters. The put_model formula that fills the pair table is NOT decided.",
+  "note": STATIC_NOTE,
+  "technique": "must-guard dominance on path conditions + field-family discipline per branch (R-GATE)",
+  "design_ref": "DESIGN.md section 4 C19",
+}
+CLAIMED["C30"] = {
+  "text": "Static decision of the layout and initialisation clauses: every access to the history buffer (through inlined read/insert functions, resolved by binding) has one of the canonical affine forms off+0, off+1, off+2+p, off+2+n+p*dim+d with off and n from the same element's tables; the buffer is written only by history.py and set_state; make_data/put_data must initialise it (make_data does not: recorded finding).",
+  "note": STATIC_NOTE,
+  "technique": "affine normal forms of index terms matched against the MuJoCo buffer layout (R-LAYOUT)",
+  "design_ref": "DESIGN.md section 4 C30",
+}
+CLAIMED["C31"] = {
+  "text": "Static decision of coverage clauses: put_model validates membership for every typed field whose enum the kernels dispatch on; every types.Model field is an MjModel attribute (copied by name) or assigned in put_model and every symbolic array dimension is defined; get_data_into copies each MjData field from the same-named Data field at [world_id].",
+  "note": STATIC_NOTE + " Oracle: attribute names of the installed mujoco module, frozen in tables/mujoco_attrs.py.",
+  "technique": "schema-vs-populator agreement over the AST of put_model / get_data_into (R-LAYOUT, R-VALID)",
+  "design_ref": "DESIGN.md section 4 C31",
+}
+
 NOT_APPLICABLE = {
   "C06": "optimality of an iterative float solve is a runtime quantity; no structural necessary condition beyond what C24/C25 decide",
   "C18": "equivalence of broadphases depends on geometric conservativeness of numeric filters and sort/scan arithmetic; a sibling text-diff of the NXN/SAP kernels would alarm on harmless refactors",
